@@ -51,6 +51,9 @@ Definition footprint (o : op) : option (nat * fld * option N) :=
   | AddPreimage i hk h _ => Some (i, FPre hk, Some h)
   | AddUnknown i k _ => Some (i, FUnknown, Some k)
   | Update i _ => Some (i, FUpdate, None)
+  (* scripts and key origins are what Update writes: never claimed to commute with it or with
+     each other on the same input *)
+  | AddScripts i _ | AddDeriv i _ _ | AddTapOrigin i _ _ => Some (i, FUpdate, None)
   | _ => None
   end.
 
@@ -82,7 +85,7 @@ Section Order.
   Definition op_idx (o : op) : nat :=
     match o with
     | AddSig i _ _ | AddTapKeySig i _ | AddTapScriptSig i _ _ | AddPreimage i _ _ _
-    | AddUnknown i _ _ | Update i _ | FinalizeInp i _ => i
+    | AddUnknown i _ _ | Update i _ | FinalizeInp i _ | AddScripts i _ | AddDeriv i _ _ | AddTapOrigin i _ _ => i
     | _ => 0
     end.
 
@@ -94,6 +97,9 @@ Section Order.
     | AddPreimage _ hk h p => add_preimage a hk h p
     | AddUnknown _ k v => set_unknown a (ins k v (i_unknown a))
     | Update i d => upd_fun (desc_info d) ntx i a
+    | AddScripts _ d => apply_update a (strip_origins (desc_info d))
+    | AddDeriv _ k v => set_bip32 a (ins k v (i_bip32 a))
+    | AddTapOrigin _ k v => set_taporigins a (ins k v (i_taporigins a))
     | _ => a
     end.
 
